@@ -31,6 +31,10 @@ class C08(C06):
         if bomb:
             ten = lambda x: " ".join(["{%s}" % x] * 10)
             plural += "bz0 = L\nbz1 = %s\nbz2 = %s\nbz3 = %s\nbz = {bz3}\n" % (ten("bz0"), ten("bz1"), ten("bz2"))
+            # the limit also trips where a reference is resolved TO A VALUE (term attribute as selector, reference as
+            # call argument) - between two identical requests that resolve such a selector / argument themselves
+            plural += ("-tz = v\n    .sel = {bz3}\nbsel = { -tz.sel ->\n [x] X\n *[o] O\n }\nbarg = { IDENT(bz) }|{ ARGS(bz3, 1) }\n"
+                       "-ts = s\n    .g = she\nsela = { -ts.g ->\n [she] She\n *[o] They\n }\nselb = { IDENT(-ts.g) }{ ARGS(sela) }\n")
         ress = ",".join("%s:%s" % ("a" if (i == 0 or rng.random() < 0.6) else "o", hx((plural if i == 0 else "") + g.resource()))
                         for i in range(nres))
         cfg = g.config()
@@ -72,6 +76,9 @@ class C08(C06):
         if bomb:
             for k in range(rng.randint(1, 2)):
                 reqs.insert(rng.randrange(len(reqs)), "%s:~:~" % hx("bz"))
+            i = rng.randrange(len(reqs))
+            reqs[i:i] = ["%s:~:~" % hx(m) for m in ("sela", "selb", rng.choice(["bsel", "barg"]), "sela", "selb",
+                                                   rng.choice(["bsel", "barg"]), "selb", "sela")]
         warm = "fmt %s %s %s %s" % (warm_cfg, ress, fns, ",".join(reqs))
         # every distinct request once on a fresh bundle (a new bundle per request: several bundle cases)
         fresh = []
